@@ -321,7 +321,7 @@ class Engine:
         if not cands:
             return None
         # exact free function (never for a path into std / core / alloc: `std::fmt::format` is not the crate's `format`)
-        foreign = re.match(r'^(std|core|alloc)::', p) is not None
+        foreign = re.match(r'^(std|core|alloc|rustc_[a-z_]+|itertools|regex|serde\w*|toml|diff|ignore|annotate_snippets|thin_vec)::', p) is not None or mi is not None
         c = [] if foreign else [r for r in cands if r['file'] is None and (r['name'] == p or r['name'].endswith('::' + p) or p.endswith('::' + r['name']))]
         if len(c) == 1:
             return c[0]['name']
